@@ -548,7 +548,7 @@ func genLongOdd(t *rapid.T) Case {
 }
 
 func init() {
-	vf.Register(vf.Sub[Case]{Name: "long-odd-clauses", Quick: 1500, Thorough: 20000, Gen: genLongOdd, Check: check, Floor: 0.3,
+	vf.Register(vf.Sub[Case]{Name: "long-odd-clauses", Quick: 1500, Thorough: 20000, Gen: genLongOdd, Check: check, Floor: 0.1,
 		Rule: "34..50 variables, 2..4 clauses of 33..n+6 literals drawn with replacement (repeated literals, tautologies) next to 5..25 clauses of 1..3 literals, the three entry points; DPLL oracle, models evaluated; non-trivial as above"})
 }
 
